@@ -63,11 +63,23 @@ Section Keep.
         * contradiction.
   Qed.
 
+  Lemma process_value_rec_preserves w : preserves (process_value_rec w).
+  Proof.
+    intros s s' H K. destruct (process_value_rec_ok _ _ _ H) as [s1 [E ->]].
+    pose proof (process_value_preserves w s s1 E K) as K1.
+    destruct (memN w (f_seen s)) eqn:Es; simpl; [exact K1|].
+    destruct (first_visit_top _ _ _ E Es) as [x [top [rest [A [B C]]]]].
+    destruct K1 as [P Q R S]. constructor; simpl; try assumption.
+    apply (record_scopes_prop (fun y => (exists w0, In w0 (f_seen s1) /\ vn0 w0 = Some y) \/ ~ In y rv) w s1).
+    - intros y Hy. assert (y = x) by congruence. subst y. apply (P top x); [rewrite B; left; reflexivity | exact C].
+    - exact P.
+  Qed.
+
   Lemma process_values_preserves ws : preserves (process_values ws).
   Proof.
     induction ws as [|w r IH]; simpl.
     - intros s s' H K. inversion H; subst. exact K.
-    - apply (preserves_bind (process_value w) (process_values r)); [apply process_value_preserves | exact IH].
+    - apply (preserves_bind (process_value_rec w) (process_values r)); [apply process_value_rec_preserves | exact IH].
   Qed.
 
   Lemma process_node_name_preserves m : preserves (process_node_name m).
@@ -83,7 +95,7 @@ Section Keep.
   Proof.
     destruct e as [gid isfunc ins outs| |nid nins nouts].
     - intros s s' H K. simpl in H. destruct (f_vscopes s) as [|top rest] eqn:Hsc; [inversion H|].
-      set (s1 := mkF (f_vx s) (f_nx s) (f_rv s) (f_rn s) (f_vn s) (f_nn s) (f_inits s) (f_seen s) (f_vcnt s) (f_ncnt s)
+      set (s1 := mkF (f_own s) (gid :: f_so s) (f_vx s) (f_nx s) (f_rv s) (f_rn s) (f_vn s) (f_nn s) (f_inits s) (f_seen s) (f_vcnt s) (f_ncnt s)
                      (top :: top :: rest) ([] :: f_nscopes s) (f_mod s)) in *.
       assert (K1 : KInv s1).
       { destruct K as [A B C D]. constructor; simpl; try assumption.
@@ -149,16 +161,16 @@ Proof.
 Qed.
 
 (* C15_fix_keeps_unique (values, one _fix_graph_names run): *)
-Theorem fix_keeps_unique_value g vx nx vn nn inits m v n :
+Theorem fix_keeps_unique_value g own vx nx vn nn inits m v n :
   vn v = Some n -> n <> [] -> (forall w, w <> v -> vn w <> Some n) ->
   In v (ev_values (events_graph g)) ->
-  forall s', fix_graph_names g vx nx vn nn inits m = (s', None) -> f_vn s' v = Some n.
+  forall s', fix_graph_names g own vx nx vn nn inits m = (s', None) -> f_vn s' v = Some n.
 Proof.
   intros Hv Hn Hu Hin s' H. unfold fix_graph_names in H.
   destruct (collect_names (events_graph g) vn nn inits) as [rv rn] eqn:Ec.
   assert (Hr : In n rv).
   { pose proof (collect_values (events_graph g) vn nn inits v n Hin Hv Hn) as X. rewrite Ec in X. exact X. }
-  assert (K0 : KInv vn rv v n (fx_init vx nx rv rn vn nn inits m)).
+  assert (K0 : KInv vn rv v n (fx_init own vx nx rv rn vn nn inits m)).
   { constructor; simpl; auto. intros u x [<-|[]] []. }
   apply (k_target _ _ _ _ _ (fx_events_preserves vn rv v n Hn Hu Hr _ _ _ H K0)).
 Qed.
